@@ -12,38 +12,52 @@ NOTE_COMMON = ("Trusted: Lean 4.33 kernel; axioms per theorem subset of {propext
 # property -> (technique, level text, design section, extra note)
 CLAIMED = {
     "C02": ("Lean 4 theorems on an executable model of lattice_lib hypercube/simplex evaluation (hat/ramp Abel summation, "
-            "tensor-product induction, sorted-walk induction) + differential correspondence of Lattice(...) and the lattice_lib "
-            "functions vs the native Lean driver + independent numpy reference oracle",
-            "Theorems (Props/C02.lean), all ranks/shapes/kernels/points: every code path of compute_interpolation_weights / "
-            "batch_outer_operation is the row-major outer product of hat weights and the hypercube output equals iterated 1-D "
-            "interpolation; vertex reproduction, convex weights, range bound, cell chord formula on closed cells, explicit Lipschitz "
-            "bound and uniform epsilon-delta continuity across cells and simplex regions (Props/C02Lip.lean, C02_T6_*), "
-            "all-pairs monotonicity along a monotone kernel axis, Edgeworth effect-monotonicity. Simplex: convex weights, sorted "
-            "permutation, flat-index bridge (evalSimplex = walk over multi-indices, no out-of-bounds gather), agreement with "
-            "hypercube on vertices and axis-parallel edges, tie-independence, range, and ALL-PAIRS monotonicity across ordering "
-            "regions and cells (C02_T4_simplex_mono).",
-            "4/C02", "Props/C02Accepted.lean restates the headline theorems for configurations accepted by the constructor model "
-            "(sizes non-empty and >= 2 follow from acceptance); int32 cast range and float behaviour are outside the model. "),
-    "C03": ("Lean 4 theorems on a model of the premade_lib builder decision logic (buildSpec: config -> layer graph) + abstract "
-            "composite of arbitrary layer functions with exactly the per-layer properties (composition of monotone maps, weighted "
-            "averages) + invariant over histories of arbitrary updates each followed by the constraints, instantiated with "
-            "C01/C02/C04-C07/C20 + structural correspondence (walk of the real Keras graph of tfl.premade.* and hand-assembled "
-            "stacks vs buildSpec through the native driver) + hostile real histories (random assignment x{1,10,100}, all-negative, "
-            "SGD/Adam lr 50 via GradientTape and model.fit, set_weights on a fresh model) + pairwise monotonicity / bounds oracle",
-            "Theorems (Props/C03.lean), all configs buildSpec accepts (calibrated linear / lattice, explicit, random and RTL "
-            "ensembles, all-vertices / KFL, +/- output calibration, any feature mix / sizes / units), all histories of arbitrary "
-            "updates from any start, all inputs: T1 every constraint establishes its invariant from any input (per layer kind: "
-            "PWL, categorical, Lattice class A, KFL, Linear), T2 a constrained feature reaches the output only through monotone "
-            "layers (structural lemma for all four graph shapes incl. the RTL structure for every pair of shuffles) hence the model "
-            "is monotone in it for all pairs of non-missing points, T3 output within [output_min, output_max] incl. missing values.",
-            "4/C03", "PARTIAL (C03_partial vs the unrestricted `def C03_full`): hypotheses = recorded findings, each with a "
-            "counter-witness theorem: F-C03-a normalised Linear with all weights <= 0 (Nondegenerate), F-C03-b categorical pairs "
-            "violated right after construction (history non-empty or no pairs), F-C03-d non-lowercase monotonicity strings in RTL "
-            "ensembles and F-C03-e tuple-valued category pairs (SpelledCanonically); F-C03-c (fixed b13cb79) has a theorem on the "
-            "fixed rule and a counter-witness on the old-rule variant. Layers are abstract functions with the per-layer "
-            "properties: lattice blocks use C01 class A (no trapezoid trusts) + C02 hypercube (simplex all-pairs monotonicity is "
-            "C02's open `def`), oracle-covered otherwise; that Keras re-applies constraints after every optimizer step is "
-            "runtime behaviour exercised by the SGD/Adam/fit histories, not proved. "),
+            "tensor-product induction, sorted-walk induction) + differential correspondence of Lattice(...) and the "
+            "lattice_lib functions vs the native Lean driver + independent numpy reference oracle",
+            "Theorems (Props/C02.lean, C02Cell, C02Trust, C02Lip, C02Accepted, C02Outside), all ranks/shapes/kernels and all "
+            "in-range or clipped points: every code path of compute_interpolation_weights / batch_outer_operation is the "
+            "row-major outer product of hat weights and the hypercube output equals iterated 1-D interpolation; vertex "
+            "reproduction, convex weights supported on the 2^rank corners of the cell containing the point "
+            "(C02_T2_cell_corners, C02_T2_weights_vanish_off_cell), range bound, cell formula, explicit Lipschitz bound and "
+            "uniform epsilon-delta continuity across cells and simplex regions (C02_T6_*), all-pairs monotonicity along a "
+            "monotone kernel axis, Edgeworth effect for arbitrary distinct axes and both trust directions "
+            "(C02_T5_edgeworth_axes, C02_T5_edgeworth_axes_neg). Simplex: convex weights, flat-index bridge (no out-of-bounds"
+            " gather), output over the rank+1 chain vertices of the same cell (C02_T3_simplex_cell_vertices), agreement with "
+            "hypercube on vertices and axis-parallel edges, tie-independence, range, ALL-PAIRS monotonicity across ordering "
+            "regions and cells (C02_T4_simplex_mono). Props/C02Accepted.lean restates the headline theorems for "
+            "configurations accepted by the constructor model.",
+            "4/C02",
+            "Explicit exclusion: clip_inputs=False with a coordinate out of range has no containing cell and is outside the "
+            "property; Props/C02Outside.lean proves by counter-witness (*_needs_defined, outside_forms_differ) that the "
+            "hypothesis `Defined` cannot be dropped, the class is generated and compared model-vs-real. int32 cast range and "
+            "float behaviour are outside the model. "),
+    "C03": ("Lean 4 theorems on a model of the premade_lib builder decision logic (buildSpec: config -> layer graph) + "
+            "abstract composite of arbitrary layer functions with exactly the per-layer properties (composition of monotone "
+            "maps, weighted averages) + invariant over histories of arbitrary updates each followed by the constraints, "
+            "instantiated with C01/C02/C04-C07/C20 + structural correspondence (walk of the real Keras graph of tfl.premade.*"
+            " and hand-assembled stacks vs buildSpec through the native driver) + hostile real histories (random assignment "
+            "x{1,10,100}, all-negative, SGD/Adam lr 50 via GradientTape and model.fit, set_weights on a fresh model) + "
+            "pairwise monotonicity / bounds oracle",
+            "Theorems (Props/C03.lean, C03System.lean): T1 every constraint establishes its invariant from any input, T2 in "
+            "every graph buildSpec returns a constrained feature reaches the output only through monotone layers (all four "
+            "shapes incl. RTL for every pair of shuffles), T3 output bounds incl. missing values. C03System instantiates the "
+            "abstract System for EVERY layer graph (systemOf): the step relation is the models of the real constraint objects"
+            " (PWL, categorical, strict Lattice finalisation + clip on the executable table model, KFL in any order, Linear "
+            "with dominances and L1 normalisation), obligations establishes_all / sound_all / init_sound_all proved from C01 "
+            "(class H_trap), C02 (hypercube and simplex), C04, C05, C06, C07, C20. C03_systemOf: for every config with "
+            "buildSpec ok, layersAccept and trapClass, every initial state InitInv and every history of arbitrary updates "
+            "each followed by the constraints, the CONCRETE composite forward g (realise g P w) is monotone in every "
+            "constrained feature for all pairs of non-missing points and, under Nondegenerate, within the output bounds at "
+            "every input incl. missing; C03_systemOf_any_start (after one step from ANY weights), C03_feasible_weights "
+            "(weights as data), shape corollaries C03_calibrated_linear / _lattice / C03_ensemble_explicit / _rtl.",
+            "4/C03",
+            "PARTIAL (`def C03_full` stays false): hypotheses beyond acceptance are exactly the recorded exclusions: "
+            "trapClass (H_trap of C01; its complement contains F-C01-a, pinned for C03 too), Nondegenerate (F-C03-a), history"
+            " non-empty or no categorical pairs (F-C03-b), RtlDraws (shuffles are permutations). layersAccept refuses a "
+            "duplicated identical Edgeworth trust (accepted by the real check; not generated). InitInv is a weight-level "
+            "predicate not tied to C10's initializer models; softmax rows and KFL root factors are data of the step relation;"
+            " the numeric tie pm.forward compares the composite with the real model after every history; that Keras "
+            "re-applies constraints after every optimizer step is runtime behaviour exercised by the histories. "),
     "C11": ("AST translator -> literal Lean table -> decide +kernel obligations + generic round-trip theorem; exact correspondence "
             "of stored values via the driver; differential oracle on real from_config / Keras JSON / save-load at k in {0,1,5} steps",
             "Theorems (Props/C11.lean): a generic theorem (roundtrip) proves that any class whose get_config keys equal its "
@@ -57,169 +71,299 @@ CLAIMED = {
     "C16": ("small-domain cross-product translator -> pooled mixed-radix Lean table -> decide +kernel; stage-spec lemmas by "
             "inversion of the Except monad; real-layer exercise oracle keyed (layer, stage, exception, predicate)",
             "Theorems (Props/C16.lean): every verify_hyperparameters, the constructor checks around them and the canonicalisers "
-            "are modelled as Raw -> Except Err Cfg; agreement with the REAL constructors is proved over 32 772 tabulated rows "
+            "are modelled as Raw -> Except Err Cfg; agreement with the REAL constructors is proved over 52 501 tabulated rows (16 tables) "
             "regenerated from /repo on every run (accept_*) and checked through the driver on ~2e5 more (thorough); accepted "
             "configurations have every index in range and every guard the projection models need (verifyLattice_cfgWF gives "
             "C01's CfgWF; PWL piece lengths > 0; ...); synonymous spellings canonicalise equally.",
             "4/C16", "`accepted => projection/evaluation total and finite` is proved per layer: acceptance yields every guard the "
             "projection/evaluation models need (CfgWF for C01, sizes != [], scalings != 0, lengths > 0, buckets >= 1, integer indices, acyclic "
-            "categorical and linear pair sets via kahnAcyclic sound+complete) and the C02/C04/C06 *Accepted corollaries use them; not one "
+            "categorical and linear pair sets via kahnAcyclic sound+complete) and the C01/C02/C04/C05/C06/C08/C09/C10 *Accepted corollaries use them; not one "
             "single statement. Float32 representability of accepted hyperparameters is outside the rational model (pinned finding F-C16-v); "
-            "remaining findings F-C16-f,h,m; 30 C16 defects fixed in /repo (known_findings.json `fixed`). "),
-    "C04": ("Lean 4 theorems on an executable model of pwl_calibration_lib.project_all_constraints (Dykstra loop with last_change, "
-            "finalisation, squeeze) + differential correspondence (PWLCalibrationConstraints, layer wiring, private stages) + oracle",
-            "Theorems (Props/C04.lean), all kernels/sizes/positive spacings/iteration counts: result monotone exactly, within "
-            "bounds in every configuration, convex/concave exactly with monotonicity or without bounds, feasible => unchanged, "
-            "imputed missing output in bounds; the finalisation establishes these from ANY input; clamps are hit exactly at BOTH "
-            "ends for iterations >= 1 without convexity (clamp_hit: Dykstra far-end invariant + mirror argument for decreasing); "
-            "iterations = 0 is known finding F-C04-b with a counter-witness theorem; the driver op is proved to compute projectAll.",
-            "4/C04", "clamp with convexity and convexity+bounds without monotonicity are the property's tolerated relaxations; "
-            "Props/C04Accepted.lean derives the positivity of the piece lengths from acceptance (constraint class and layer). "),
-    "C05": ("Lean 4 theorems (induction over piece lists: sum of clipped ramps = convex combination of cumulative sums) on an "
-            "executable model of compute_interpolation_weights / PWLCalibration.call / CategoricalCalibration.call + differential "
-            "correspondence of the real Keras layers + np.interp oracle",
-            "Theorems (Props/C05.lean), all keypoint vectors/kernels/weights/inputs: output = PWL interpolation through the reported "
-            "keypoints (value at nodes, linear between, constant outside, equal ends when cyclic), missing path, learned keypoints "
-            "strictly ordered between the fixed ends for any positive weights summing to one, monotone/bounded outputs => "
-            "monotone/bounded function, category lookup.",
-            "4/C05", "softmax abstracted as arbitrary positive weights summing to 1; float32 softmax underflow is known finding F-C05-a. "),
+            "remaining findings F-C16-f, m (F-C16-h fixed by ebf18ed); the C16 defects fixed in /repo are listed in known_findings.json `fixed`. The verifier model has not yet followed two late repairs of /repo: (d, d) dominance / joint-monotonicity pairs (18dd711) and the validation of normalization_order (4f3f7ef). "),
+    "C04": ("Lean 4 theorems on an executable model of pwl_calibration_lib.project_all_constraints (Dykstra loop with "
+            "last_change, finalisation, squeeze) + differential correspondence (PWLCalibrationConstraints, layer wiring, "
+            "private stages) + oracle",
+            "Theorems (Props/C04.lean, C04Accepted.lean), all kernels/sizes/positive spacings/iteration counts: result "
+            "monotone exactly, within bounds in every configuration, convex/concave exactly with monotonicity or without "
+            "bounds, feasible => unchanged; the finalisation establishes these from ANY input; clamps are hit exactly at BOTH"
+            " ends for iterations >= 1 without convexity (clamp_hit); iterations = 0 is known finding F-C04-b with a "
+            "counter-witness theorem; the driver op is proved to compute projectAll. Totality (projectAll_ok_iff; "
+            "layer_returns_iff / constraints_returns_iff): for an accepted configuration and a kernel of the built shape the "
+            "projection returns iff no clamp is requested without monotonicity (F-C16-m), ValueError otherwise; the headline "
+            "theorems are restated as `exists out, projectAll = ok out and clauses` (constraints_total_*, layer_total_*). "
+            "Missing output: learned => in bounds; fixed => returned verbatim, in the bounds iff the value is "
+            "(missing_output_fixed_is_value).",
+            "4/C04",
+            "clamp with convexity and convexity+bounds without monotonicity are the property's tolerated relaxations; AllPos "
+            "and CfgOk follow from acceptance (constraint class and layer); a fixed missing_output_value outside the bounds "
+            "is accepted by design (upstream tests expect it back), so `imputed missing output within the bounds` is claimed "
+            "for the learned output and for fixed values chosen inside the bounds. "),
+    "C05": ("Lean 4 theorems (induction over piece lists: sum of clipped ramps = convex combination of cumulative sums) on an"
+            " executable model of compute_interpolation_weights / PWLCalibration.call / CategoricalCalibration.call + "
+            "differential correspondence of the real Keras layers + np.interp oracle",
+            "Theorems (Props/C05.lean, C05Accepted.lean), all keypoint vectors/kernels/weights/inputs: output = PWL "
+            "interpolation through the reported keypoints (value at nodes, linear between, constant outside, equal ends when "
+            "cyclic), missing path, learned keypoints strictly ordered between the fixed ends for any positive weights "
+            "summing to one, monotone/bounded outputs => monotone/bounded function, category lookup; multi-unit calls "
+            "(callUnits_entries, callUnits_per_unit_missing, split_outputs_columns), categorical units and monotonicity along"
+            " every listed pair (categorical_monotone_pairs). C05Accepted: accepted => keypoints exist, >= 2, strictly "
+            "increasing (accepted_keypoints); Built (accepted configuration + build() shapes + softmax row) => PwlEval.WF "
+            "(built_wf); the headline theorems with Built as the only hypothesis (accepted_interpolation, accepted_monotone, "
+            "accepted_bounded, accepted_layer_bounded, ...); accepted_categorical.",
+            "4/C05",
+            "softmax abstracted as arbitrary positive weights summing to 1 (Built.softmax); float32 softmax underflow is "
+            "known finding F-C05-a. "),
     "C07": ("Lean 4 theorems on an executable model of KFL evaluation and kernel/scale constraints (histories as op lists) + "
-            "differential correspondence on the real layer under random constraint histories + pairwise-monotonicity/bounds oracle",
-            "Theorems (Props/C07.lean), all sizes/dims/terms/monotonicity subsets/bound modes: any interleaving of kernel and scale "
-            "constraints (or finalize_constraints) from any finite kernel and scale yields outputs monotone in every increasing "
-            "input and within bounds on the stated domain; old guard counter-witness (fixed F-C07-a).",
-            "4/C07", "the dims-th root is an arbitrary factor r with r >= 1 and r^dims >= largest product (checked by the driver on "
-            "the code's float32 factor); float32 layer, tolerance 1e-4. "),
-    "C09": ("Lean 4 theorems on an explicit multi-unit model (units as trailing axis; index-set lemma + slice commutation for "
-            "every strict stage, the Dykstra schedule and the whole LatticeConstraints.__call__; per-column lemmas for "
-            "PWL/Linear/KFL) + exact-rational correspondence of the multi-unit model + real-vs-real differential (per-unit, unit "
-            "permutation, row/batch) with x1/x100/x0.01 column magnitudes",
-            "Theorems (Props/C09.lean), all configurations/unit counts/kernels: every multi-unit reduction and reshape named by the "
-            "anchors acts on unit u exactly as the one-unit model of C01/C04/C06/C07 acts on the unit-u slice (finalize_per_unit, "
-            "dykstra_per_unit, lattice_constraint_per_unit, pwl/linear/kfl per-unit lemmas); unit permutations follow. Row "
-            "independence is structural in the model and established on the code by the real-vs-real tie for every layer kind, CDF, "
-            "the functional forms, ParallelCombination, Aggregation, RTL and premade models.",
-            "4/C09", "categorical, convexity stages and forward passes have no explicit-axis model: covered by the real-vs-real tie. "),
+            "differential correspondence on the real layer under random constraint histories + pairwise-monotonicity/bounds "
+            "oracle",
+            "Theorems (Props/C07.lean), all sizes/dims/terms/monotonicity subsets/bound modes: premises => output monotone in"
+            " every increasing input and within bounds (output_monotone, output_bounded). Schedule classes proved: (i) any "
+            "run ending in a pure constraint tail containing both calls, from any finite kernel and scale "
+            "(constraints_any_order_establish_premises, finalize_constraints_establishes_premises); (ii) ANY run of raw "
+            "updates and constraint calls (premises_after_any_run, layer_after_any_run): bounds hold whenever each constraint"
+            " ran after its variable's last raw update, monotonicity whenever no term's scale went to the opposite non-zero "
+            "sign after the kernel constraint read it, and this condition is tight (sign_condition_tight); (iii) Keras "
+            "training: after EVERY complete optimizer step, per-variable or batched, both clauses hold "
+            "(keras_training_monotone_and_bounded). Old guard counter-witness (fixed F-C07-a).",
+            "4/C07",
+            "The property as quantified over ALL orders of updates and constraints is FALSE for the code: PropertyAllOrders "
+            "is kept as a def with property_all_orders_false; kernel constraint, then a raw scale update to the opposite "
+            "sign, then the scale constraint is the pinned known finding F-C07-c (counter-witness theorems, generated every "
+            "run). The dims-th root is an arbitrary factor r with r >= 1 and r^dims >= largest product (checked by the driver"
+            " on the code's float32 factor); float32 layer, tolerance 1e-4. "),
+    "C09": ("Lean 4 theorems on an explicit multi-unit model (units as trailing axis; index-set lemma + slice commutation for"
+            " every strict stage, the Dykstra schedule and the whole LatticeConstraints.__call__; per-column lemmas for "
+            "PWL/Linear/KFL) + exact-rational correspondence of the multi-unit model + real-vs-real differential (per-unit, "
+            "unit permutation, row/batch) with x1/x100/x0.01 column magnitudes",
+            "Theorems (Props/C09.lean, C09Units.lean, C09Accepted.lean), all configurations/unit counts/kernels: every "
+            "multi-unit reduction and reshape named by the anchors acts on unit u exactly as the one-unit model of "
+            "C01/C04/C06/C07 acts on the unit-u slice (finalize_per_unit, dykstra_per_unit, lattice_constraint_per_unit, "
+            "pwl/linear/kfl per-unit lemmas); unit permutations follow. Against the executables: finalizeUT_per_unit (the "
+            "executable multi-unit finalisation at unit u = the executable one-unit finalizeT of column u), "
+            "lattice_constraint_per_unit_exec (unit u of LatticeConstraints.__call__ = the driver's latticeConstraintT on "
+            "column u, given the Dykstra table/function tie hdyk), pwl_callUnits_per_unit; accepted_cfgShape, "
+            "accepted_dcfgWF, accepted_finalizeUT_per_unit. Row independence is structural in the model and established on "
+            "the code by the real-vs-real tie for every layer kind, CDF, the functional forms, ParallelCombination, "
+            "Aggregation, RTL and premade models.",
+            "4/C09",
+            "The full PWL / Linear / Categorical constraints and the Linear / Categorical / Lattice forward passes are "
+            "column-wise multi-unit models whose per-unit theorems are definitional: their content is the correspondence "
+            "(un.pwlfull incl. the units-dependent convexity reshape, un.linfull, un.catfull). Model/Units.lean keeps the "
+            "POSITIONAL Dykstra loop, equal to C08's slot-keyed loop only when no constraint tuple is listed twice "
+            "(hypothesis hdyk); KFL full constraint per unit is an index identity only. "),
     "C10": ("Lean 4 theorems on executable initialiser models (linspace/valley/peak profiles, min/max of the outer sum, BFS "
             "level-order invariant for random-monotonic, reuse of C07 premises and C01/C12 fixpoint/acceptance lemmas) + "
             "exact-rational correspondence with recorded random draws + oracle on freshly built layers",
-            "Theorems (Props/C10.lean), every size/rank/bound and every permutation/sample (hence every seed): lattice linear init "
-            "is linear along monotone dims, valley/peak along unimodal dims, constant along the others with min = init_min, max = "
-            "init_max; random-monotonic init is non-decreasing along every axis and in range; PWL initialisers (equal heights / "
-            "slopes, decreasing); KFL init meets C07's premises; monotonicity+bounds-only constraint leaves the init unchanged and "
-            "the C12 assert model accepts it.",
-            "4/C10", "initial weights of layers outside the statement's list are known findings: F-C03-b (categorical pairs), "
-            "F-C10-a/b/c (one-sided categorical bound, all-joint-unimodal lattice, Linear random_uniform), F-C10-d (lattice "
-            "initialisers ignore trusts/dominances, so assert_constraints fails right after construction). "),
-    "C14": ("Lean 4 theorems (sum/product exchange via C02's multilinear interpolant; list inductions on cumsum/diffs; row-major "
-            "reshape arithmetic) on executable models reusing Kfl/LatticeEval/PwlEval + paired differential of the REAL callables + "
-            "correspondence vs the native driver",
-            "Theorems (Props/C14.lean), all sizes/terms/kernels/points and arbitrary softmax/sigmoid: KFL = Lattice on the dense "
-            "kernel; pwl_calibration_fn = PWLCalibration on the derived keypoints/weights (fixed and learned_interior, missing, "
-            "cyclic); cdf_fn = CDF.call for 'mean'/'none' with the sparsity gather explicit; ParallelCombination column-wise, "
-            "Aggregation = per-example ragged mean, RTL = gather into its lattices.",
-            "4/C14", "float32 paths compared at rtol 1e-4..1e-5; sigmoid CDF cases are real-vs-real only. "),
-    "C15": ("Lean 4 theorems for ANY positive softmax-like / monotone [0,1] sigmoid-like function (reduction to C05 through C14), "
-            "exact relu6 CDF model, geometric mean over the reals (Mathlib exp/log) + correspondence and clause-by-clause oracle "
-            "on real pwl_calibration_fn / cdf_fn / CDF",
-            "Theorems (Props/C15.lean): pwl_calibration_fn within [output_min, output_max] at every input, all-pairs monotone when "
-            "increasing, exact clamp ends, cyclic ends, missing path, output_param_size bookkeeping for every mode, None interior "
-            "parameters accepted; CDF / cdf_fn outputs in [0,1], geometric mean in [eps, 1+eps], monotone in every input for "
-            "non-negative scaling; NonNeg constraint proved sufficient.",
-            "4/C15", "input_min < input_max, >= 1 keypoint and sparsity_factor >= 1 now follow from acceptance (fixed F-C15-d/e, F-C14-a; "
-            "C15_T2_*_int, C15_T3_bad_sparsity_rejected); float32 softmax underflow is F-C15-b; input_dim = 0 -> NaN (mean over an empty "
-            "axis) is the pinned finding F-C15-f. "),
-    "C12": ("Lean 4 iff-theorems (reduce_min/max <-> forall) on executable models of every assert_constraints + accept/reject "
-            "differential on LP-generated feasible / single-violation / exact-threshold kernels",
-            "Theorems (Props/C12.lean): accepts = true <-> every covered constraint has slack >= -eps, for categorical, linear "
-            "(incl. order-2 norm without sqrt), PWL, all seven asserted lattice kinds incl. the trailing unit axis, KFL monotonicity "
-            "and bounds (kfl_iff).",
-            "4/C12", "multi-unit Linear/PWL/categorical/KFL are judged column-wise in the harness; coverage gaps of the real asserts "
-            "(unimodality, KFL non-negativity, PWL convexity) are reported in evidence notes, not as violations. "),
-    "C13": ("Lean 4 theorems over index-function tensors (reindexing by nodup bijection, List.Perm, induction) on code-shaped models "
-            "of the regularizers + differential correspondence + numpy oracle of the documented formulas",
-            "Theorems (Props/C13.lean), all shapes/units/amounts/kernels: lattice Laplacian/torsion (transpose, reshape, slices) "
-            "equal the documented sums; PWL Laplacian/Hessian/wrinkle equal the l1/l2 norms of 1st/2nd/3rd differences incl. cyclic "
-            "wrap-around; non-negativity, linearity in amounts, all vanishing sets; per-unit form for every units >= 1 "
-            "(laplacian_per_unit, torsion_per_unit, pwl_*_per_unit): the multi-unit regularizer is the sum over units of the "
-            "single-unit regularizer of each unit's slice / column.",
-            "4/C13", "the per-unit `sum over units` form is proved (amounts with no entry on the units axis: scalars, lists of one "
-            "entry per lattice dimension) and additionally evaluated by the driver on every case. "),
-    "C17": ("Lean 4 theorems on executable models of _get_rtl_structure / random ensemble / pair cover / Crystals (randomness as "
-            "explicit permutations) + differential correspondence with replayed permutations + oracle",
-            "Theorems (Props/C17.lean), all sizes and ALL permutations/draws: RTL exact rank, every input used, usage counts differ "
-            "by <= 1, monotone wiring and output label; random ensemble (rank, no repeats, coverage, conditional on success); "
-            "(incl. totality under the code's preconditions); all-pairs cover complete with sizes <= rank; Crystals end to end "
-            "(allocation assert, add list, greedy placement to exact rank, swap invariance: crystals_structure).",
-            "4/C17", "zero-score (or float-absorbed-score) features are known finding F-C17-a (counter-witness theorem); a CONSTANT prefitting "
-            "kernel makes the real score normalisation 0/0 (F-C17-b: found by the un-patched `crystals_real` stream; the scores are inputs "
-            "of the Lean model, so that step is covered by the stream only); an RTL layer without inputs is outside the quantifier (model "
-            "and code both refuse: rtl_no_inputs_raises); `no repeated feature inside a final "
-            "Crystals lattice` is not claimed by the property and not proved (no counter-example in 2e5 real runs). "),
-    "C18": ("Lean 4 theorems on an executable model of compute_keypoints / _weighted_quantile (half-even rounding with explicit "
-            "tie directions) + differential correspondence on exact dyadic samples + oracle",
-            "Theorems (Props/C18.lean), all samples/weights/tie directions: nearest-rank indices strictly increasing in range; "
-            "unweighted and weighted quantiles end to end (k strictly increasing keypoints from the clipped sample, ends = "
-            "extremes / clip bounds), repair loop spec, uniform mode, count clause.",
-            "4/C18", "degenerate inputs (all-zero weights with k>2, all-default sample in uniform mode) are known findings F-C18-c/d; "
-            "np.linspace/np.interp float ties are an explicit rounding-direction argument. "),
-    "C19": ("Lean 4 theorems on the model of custom_reduce_prod's grad_fn + GradientTape correspondence with planted exact zeros + "
-            "Jacobian oracle",
-            "Theorems (Props/C19.lean): for every list and index and every zero pattern the gradient factor equals the product of "
-            "the other entries and is the exact difference quotient of the product; the hypercube and simplex Lattice outputs, "
-            "the PWLCalibration output and the categorical output of the REAL evaluation models are dot(weights(x), kernel) with "
-            "kernel-independent weights (non-negative, summing to one for Lattice; one-hot for categorical), with exact "
-            "difference quotients in every kernel entry.",
-            "4/C19", "Props/C19Deriv.lean adds Mathlib's analytic form: HasDerivAt per coordinate / HasFDerivAt for the whole gradient "
-            "of the plain real product = gradFactors (every zero pattern), and HasDerivAt of every kernel entry = interpolation "
-            "weight for hypercube, simplex, PWL and categorical outputs, also for ANY continuous real extension of the rational "
-            "model; TF autodiff itself is exercised by the GradientTape correspondence. "),
-    "C20": ("Lean 4 theorems (structural induction on dot/clip) on the model of Linear.call + differential correspondence of the "
-            "real float64 layer + consequence oracles on constrained kernels",
-            "Theorems (Props/C20.lean), all kernels/bounds/inputs: output = bias + sum k_i*clip(x_i); clip monotone and in bounds; "
-            "k_i >= 0 (<= 0) => non-decreasing (non-increasing) in x_i for all pairs; monotonic dominance per unit step, range "
-            "dominance across full ranges, weighted average for norm-1 non-negative weights; composition with C06's constraint theorems.",
-            "4/C20", "monotonic dominance needs the four compared inputs unclipped. "),
+            "Theorems (Props/C10.lean, C10Constraint.lean, C10Pwl.lean, C10Accepted.lean), every size/rank/bound and every "
+            "permutation/sample (hence every seed): lattice linear init is linear along monotone dims, valley/peak along "
+            "unimodal dims, constant along the others with min = init_min, max = init_max; random-monotonic init is "
+            "non-decreasing along every axis, in range and total for every valid shuffle list (random_monotonic_init_total); "
+            "PWL initialisers; KFL init meets C07's premises for any range 0 <= init_min "
+            "(kfl_init_explicit_range_meets_C07_premises). The initial kernel is a FIXED POINT of the whole "
+            "latticeConstraintT (Dykstra included, both modes, every iteration count, any range inside the bounds): "
+            "linear_init_is_fixpoint_of_constraint (incl. valley/peak dimensions), "
+            "random_monotonic_init_is_fixpoint_of_constraint (no unimodality); PWL: pwl_equal_heights_is_fixpoint, "
+            "pwl_equal_slopes_is_fixpoint; the C12 assert model accepts the lattice inits; accepted_linWF, "
+            "accepted_linear_init_is_fixpoint from constructor acceptance.",
+            "4/C10",
+            "Known findings: F-C03-b (categorical pairs), F-C10-a/b/c (one-sided categorical bound, all-joint-unimodal "
+            "lattice, Linear random_uniform), F-C10-d (lattice initialisers ignore trusts/dominances), F-C10-e (an explicit "
+            "initialisation range outside the output bounds is accepted: explicit_range_outside_bounds_violates), F-C10-f "
+            "(negative KFL initialisation range: kfl_negative_range_not_monotone). KFL initial (kernel, scale) as a fixed "
+            "point of the KFL constraints and acceptance by the KFL assert are checked by the harness only; PWL acceptance by"
+            " the C12 assert model is not instantiated. "),
+    "C14": ("Lean 4 theorems (sum/product exchange via C02's multilinear interpolant; list inductions on cumsum/diffs; "
+            "row-major reshape arithmetic) on executable models reusing Kfl/LatticeEval/PwlEval + paired differential of the "
+            "REAL callables + correspondence vs the native driver",
+            "Theorems (Props/C14.lean), all sizes/terms/kernels and arbitrary softmax/sigmoid: KFL = Lattice on the dense "
+            "kernel for both input forms of the Lattice, for in-range or clipped inputs (false otherwise: "
+            "C14_T1_needs_in_range); pwl_calibration_fn = PWLCalibration on the derived keypoints/weights (fixed and "
+            "learned_interior, missing, cyclic), the paired layer exists iff not (cyclic and two keypoints) "
+            "(C14_T2_paired_layer_buildable_iff); cdf_fn = CDF.call for 'mean'/'none' with the sparsity gather explicit, "
+            "sparsity_factor >= 1 from acceptance; ParallelCombination column-wise, Aggregation = per-example ragged mean, "
+            "RTL = gather into its lattices.",
+            "4/C14",
+            "float32 paths compared at rtol 1e-4..1e-5; sigmoid CDF cases are real-vs-real only; geometric mean excluded by "
+            "the property. Documented `no paired object` exclusions: unclipped out-of-range inputs (as C02), cyclic PWL with "
+            "two keypoints (the layer's build refuses: the harness requires that ValueError), keypoints collapsed by float "
+            "softmax underflow. "),
+    "C15": ("Lean 4 theorems for ANY positive softmax-like / monotone [0,1] sigmoid-like function (reduction to C05 through "
+            "C14), exact relu6 CDF model, geometric mean over the reals (Mathlib exp/log) + correspondence and "
+            "clause-by-clause oracle on real pwl_calibration_fn / cdf_fn / CDF",
+            "Theorems (Props/C15.lean): pwl_calibration_fn within [output_min, output_max] at every non-missing input and at "
+            "every input when the missing output is derived (C15_T1_bounded_calibrated, C15_T1_bounded_derived_missing), a "
+            "fixed missing_output_value returned verbatim (C15_T1_fixed_missing_exact), all-pairs monotone when increasing, "
+            "exact clamp ends, cyclic ends, missing path, output_param_size bookkeeping for every mode; call-level clauses "
+            "through pwlFnRow_entries (C15_T1_call_*); the accepted call forms as an iff (C15_T3_accepted_iff, "
+            "C15_T3_documented_output_forms: every rejection a ValueError); CDF / cdf_fn outputs in [0,1], geometric mean in "
+            "[eps, 1+eps], monotone in every input for non-negative scaling; NonNeg constraint proved sufficient.",
+            "4/C15",
+            "input_min < input_max, >= 1 keypoint and sparsity_factor >= 1 follow from acceptance (fixed F-C15-d/e, F-C14-a; "
+            "C15_T2_*_int, C15_T3_bad_sparsity_rejected); float32 softmax underflow is F-C15-b; input_dim = 0 -> NaN is the "
+            "pinned finding F-C15-f; by design and not findings: a fixed missing_output_value outside the range is returned "
+            "as is, rank-2 keypoint_output_parameters with units > 1 is rejected (both required by upstream tests). "),
+    "C12": ("Lean 4 iff-theorems (reduce_min/max <-> forall) on executable models of every assert_constraints + accept/reject"
+            " differential on LP-generated feasible / single-violation / exact-threshold kernels",
+            "Theorems (Props/C12.lean, C12Units.lean, C12Norm.lean, C12Bridge.lean): accepts = true <-> every covered "
+            "constraint has slack >= -eps, for categorical, linear, PWL, all seven asserted lattice kinds incl. the trailing "
+            "unit axis, KFL monotonicity and bounds (kfl_iff). Layer level: the call on the whole (n, units) kernel with the "
+            "real reductions over the unit axis is accepted iff EVERY unit column is (categorical/linear/pwl_outputs/kfl "
+            "_layer_iff). PWL layer (pwl_layer_iff, _units, _learned, no hypothesis): the layer judges keypoints_outputs() = "
+            "cumulative sums of the kernel column, closed when cyclic. Order-2 norm for EVERY rational kernel and eps, "
+            "root-free (normOk_l2_sq_iff*) and with Real.sqrt (normOk_l2_real_iff). Bridges at eps = 0 to the feasibility "
+            "predicates of C06 (categorical_zero_iff_feasible, linear_accepted_fixed), C04 (pwl_zero_iff_c04) and C08 "
+            "(lattice_zero_iff_feasibleD, lattice_accepted_groups_fix).",
+            "4/C12",
+            "coverage gaps of the real asserts (unimodality, KFL non-negativity with both / no bounds, PWL convexity) are "
+            "reported in evidence notes, not as violations; no bridge for the linear norm clause, KFL, PWL clamps and for eps"
+            " > 0. F-C12-e (learned keypoints judged at the initial keypoints) and F-C12-f (a keypoint equal to "
+            "missing_input_value never judged) were found here and are fixed in /repo (57c7e1f, 164b31b); the harness ties "
+            "the real call to the layer-level model. "),
+    "C13": ("Lean 4 theorems over index-function tensors (reindexing by nodup bijection, List.Perm, induction) on code-shaped"
+            " models of the regularizers + differential correspondence + numpy oracle of the documented formulas",
+            "Theorems (Props/C13.lean, C13Exact.lean), all shapes/units/kernels: lattice Laplacian/torsion (transpose, "
+            "reshape, slices) equal the documented sums for every amount the code accepts (torsion_eq_documented_rootOk; "
+            "torsion_raises_iff: only a negative scalar torsion amount is rejected); PWL Laplacian/Hessian/wrinkle equal the "
+            "l1/l2 norms of 1st/2nd/3rd differences incl. cyclic wrap-around, also for the code-shaped (rows, units) "
+            "computation (pwl_*_rows_eq_columns); non-negativity for non-negative amounts; linearity exactly as far as it "
+            "holds (Laplacian linear in the amount vectors, torsion linear in scalar amounts and in the pair weights, "
+            "degree-2 homogeneous and affine per dimension for lists, reg(l1,l2) = reg(l1,0) + reg(0,l2) for all five); "
+            "vanishing sets (non-cyclic Hessian / wrinkle on linear / quadratic outputs; cyclic forms vanish exactly on "
+            "constants for a positive amount: pwl_*_cyclic_zero_iff); per-unit sum form for every units >= 1 "
+            "(laplacian_per_unit, torsion_per_unit, pwl_*_per_unit, pwl_rows_per_unit).",
+            "4/C13",
+            "Documented exclusions with counter-witness theorems whose numbers are compared with the real code on every run: "
+            "cyclic Hessian on (0,1,2) = 6 and cyclic wrinkle on (0,1,4,9) = 48; list torsion amounts are bilinear, not "
+            "additive (torsion_list_not_additive); negative amounts are accepted by the code and give negative values "
+            "(torsion_neg_list_witness, laplacian_neg_witness). "),
+    "C17": ("Lean 4 theorems on executable models of _get_rtl_structure / random ensemble / pair cover / Crystals (randomness"
+            " as explicit permutations) + differential correspondence with replayed permutations + oracle",
+            "Theorems (Props/C17.lean), all sizes and ALL permutations/draws: RTL exact rank, every input used, usage counts "
+            "differ by <= 1, monotone wiring and output label (0 < #inputs from acceptance: rtl_accepted_has_inputs); random "
+            "ensemble (rank, no repeats, coverage, totality under the code's preconditions); all-pairs cover complete for "
+            "EVERY rank (pair_cover_any_rank; sizes <= rank for rank >= 2, exactly two features per lattice at rank <= 1); "
+            "Crystals end to end for strictly positive importance scores (crystals_structure); determinism in the form "
+            "`structure = model function of (config, draws), draws = gen seed cfg` for an arbitrary generator gen "
+            "(rtl_/random_/cover_/crystals_deterministic, *_depends_on_draws_only).",
+            "4/C17",
+            "NumPy's generator is a parameter of the determinism theorems; that the real code draws from a generator seeded "
+            "with random_seed and from nothing else is checked by running every stream twice per (config, seed) and by "
+            "replaying RandomState(seed). Zero-score (or float-absorbed-score) features are known finding F-C17-a "
+            "(crystals_zero_score_witness); a CONSTANT prefitting kernel makes the real score normalisation 0/0 (F-C17-b: "
+            "found by the un-patched `crystals_real` stream; the scores are inputs of the Lean model); an RTL layer without "
+            "inputs is outside the quantifier (rtl_no_inputs_raises); `no repeated feature inside a final Crystals lattice` "
+            "is not claimed by the property and not proved. "),
+    "C18": ("Lean 4 theorems on an executable model of compute_keypoints / _weighted_quantile (half-even rounding with "
+            "explicit tie directions) + differential correspondence on exact dyadic samples + oracle",
+            "Theorems (Props/C18.lean, C18Helpers.lean), all samples/weights/tie directions: nearest-rank indices strictly "
+            "increasing in range; unweighted and weighted quantiles end to end, repair loop spec, uniform mode, count clause;"
+            " ends = clip bounds when given, else the data extremes (sortedValues_head_*/last_*); every clause as one "
+            "predicate Rules proved for every admissible input, both modes, weighted or not (compute_keypoints_rules); the "
+            "helpers compute_feature_keypoints / set_feature_keypoints / compute_label_keypoints / set_label_keypoints are "
+            "modelled and proved to return / store keypoints obeying the same Rules (feature_helper_rules, label_helper_rules"
+            " for numeric and string labels); the keypoints are accepted by the PWLCalibration constructor model "
+            "(pwl_accepts_keypoints, compute_keypoints_accepted).",
+            "4/C18",
+            "Admissible asks num_keypoints >= 2 and excludes exactly the known findings F-C18-c (all-zero weights with k > 2)"
+            " and F-C18-d (all-default sample in uniform mode); negative example weights are not generated (the theorems "
+            "themselves ask only a non-zero reduced weight sum); np.linspace/np.interp float ties are an explicit "
+            "rounding-direction argument. F-C18-f (string labels raised TypeError) and F-C18-g (plain Python lists) were "
+            "found by the helper streams and are fixed in /repo (80c7e39, e275cfc). "),
+    "C19": ("Lean 4 theorems on the model of custom_reduce_prod's grad_fn + GradientTape correspondence with planted exact "
+            "zeros + Jacobian oracle",
+            "Theorems (Props/C19.lean, C19Deriv.lean, C19Kfl.lean): for every list and index and every zero pattern the "
+            "gradient factor equals the product of the other entries and is the exact difference quotient of the product; the"
+            " hypercube and simplex Lattice outputs, the PWLCalibration output and the categorical output of the REAL "
+            "evaluation models are dot(weights(x), kernel) with kernel-independent weights, with exact difference quotients "
+            "in every kernel entry. KFL OUTPUT: exact difference quotients w.r.t. every scale entry, every kernel entry "
+            "(slope assembled from the hand-written factor, any zero pattern) and every input coordinate inside a cell "
+            "(kfl_scale/kernel/input_difference_quotient), and HasDerivAt for every continuous real extension of the model "
+            "(kfl_*_hasDerivAt_of_continuous).",
+            "4/C19",
+            "Props/C19Deriv.lean: HasDerivAt per coordinate / HasFDerivAt for the whole gradient of the plain real product = "
+            "gradFactors (every zero pattern), HasDerivAt of every kernel entry = interpolation weight for hypercube, "
+            "simplex, PWL and categorical outputs, also for ANY continuous real extension of the rational model; convexity of"
+            " the Lattice Jacobian row needs in-range or clipped inputs (jacobian_row_convex_needs_defined); the input "
+            "derivative is stated only on open cells, as the property says; TF autodiff itself is exercised by the "
+            "GradientTape correspondence (incl. real KFL gradients vs the model's). "),
+    "C20": ("Lean 4 theorems (structural induction on dot/clip) on the model of Linear.call + differential correspondence of "
+            "the real float64 layer + consequence oracles on constrained kernels",
+            "Theorems (Props/C20.lean, C20Compose.lean), all kernels/bounds/inputs: output = bias + sum k_i*clip(x_i); clip "
+            "monotone and in bounds; k_i >= 0 (<= 0) => non-decreasing (non-increasing) in x_i for all pairs; monotonic "
+            "dominance per unit step, range dominance across full ranges, weighted average for norm-1 non-negative weights. "
+            "C20Compose: the same four consequences for the OUTPUT OF THE CONSTRAINT of every accepted configuration "
+            "(accepted_monotone, accepted_monotonic_dominance, accepted_range_dominance_call, accepted_weighted_average; "
+            "totality accepted_kernel_exists), through C06's composite theorem.",
+            "4/C20",
+            "monotonic dominance needs the four compared inputs unclipped; the weighted-average consequence excludes a "
+            "pre-normalised column with 1-norm below the guard 1e-8 (weighted_average_fails_when_degenerate): known findings "
+            "F-C03-a (all weights <= 0, pinned for C20 too) and F-C20-a (non-negative column below the guard). "),
     "C01": ("Lean 4 theorems on an executable model of lattice_lib.finalize_constraints / project_by_dykstra / "
             "LatticeConstraints.__call__ + differential correspondence (finalize_constraints, LatticeConstraints, "
             "Lattice.finalize_constraints) + oracle",
-            "Theorems (Props/C01.lean): for every rank, size vector, monotonicity set, bounds and EVERY input kernel (arbitrary "
-            "Dykstra output, any iteration count), finalize+clip returns a kernel monotone along every monotone axis, meeting "
-            "every Edgeworth and trapezoid inequality and the bounds, for every accepted configuration in the class H_trap "
-            "(C01_strict_mixed_class: any Edgeworth trusts of either direction, any trapezoid trusts matching or not, "
-            "trapezoid conditional axes free and pairwise distinct when Edgeworth trusts are present, or rank 2); classes "
-            "A (Edgeworth only), B (trapezoid only, shared conditionals allowed), C1 are separate theorems; all transported to "
-            "the executable table model by per-step locality (finalizeT_agree, C01_exec_*). Outside H_trap the property is "
-            "false on the current tree: counter-witness theorem C01_counter_witness = known finding F-C01-a.",
-            "4/C01", "C01_full (all configurations) stays a `def : Prop`: with Edgeworth trusts present a monotone trapezoid "
-            "conditional axis in rank >= 3 is F-C01-a and shared conditional axes are the documented exception; the Dykstra "
-            "part of feasible=>unchanged is C08's theorem. "),
-    "C08": ("Lean 4 model of project_by_dykstra (all group projections + schedule) + differential correspondence per family and "
-            "combined + fixpoint / convergence / QP-nearest-point oracle (scipy SLSQP)",
-            "Theorems (Props/C08.lean): feasible/fixed kernels are returned unchanged by the Dykstra loop with all "
-            "roll-back tensors zero for EVERY iteration count (dykstra_fixpoint, monoGroup_fix); the telescoping invariant "
-            "w - sum(last_change) holds along every pass for ANY group maps; every stencil map (pair, 2x2 square, both triangles, "
-            "range quadruple and corner) lands in its half-space, fixes it and satisfies the variational inequality, i.e. is the "
-            "exact Euclidean projection; on the EXECUTABLE table loop: every group map is local, a kernel feasible for all "
-            "configured families (FeasibleD) is returned unchanged for every iteration count (projectByDykstraT_feasible), "
-            "re-projection is idempotent on fixed points, telescoping invariant, table loop = function loop on the box. "
-            "CONVERGENCE (Boyle-Dykstra) is PROVED: Lemmas/DykstraConv.lean (abstract theorem in a finite-dimensional real inner "
-            "product space for maps that land in closed sets and satisfy the variational inequality), DykstraConvBox.lean "
-            "(rational model loop = restriction of the real one), DykstraConvStencil.lean + Props/C08.lean: every group map of "
-            "monotonicity, unimodality, Edgeworth, trapezoid, monotonic dominance, joint monotonicity and JOINT UNIMODALITY "
-            "(Model: juStencil / hyperplaneGroup, one group per (vertex, offsets) hyperplane in the real loop's order; "
-            "Lemmas/JointUnimod.lean juStencil_ok, Lemmas/DykstraConvHyper.lean hyperplaneGroup_lands/_fix/_vi, hsP_* for any "
-            "coefficient vector a != 0) IS the Euclidean projection onto its feasible set (key_lands, key_vi); dykstra_cfg_converges / projectByDykstraT_cfg_converges: for "
-            "every such configuration and every kernel the iterates (function-level and executable table loop) converge to the "
-            "Euclidean-nearest feasible kernel, the violation tends to 0. ", "4/C08", "PARTIAL: range dominance is outside the convergence theorem (the property does not claim a nearest-point limit for it; its corner map is proved NOT to be a Euclidean projection, rangeDom_corner_not_projection) and is tested against scipy SLSQP / violation -> 0 each run; the RATE of convergence (how many iterations the strict layer constraint needs) and the PWL iterative projection's limit are covered by the oracle here and by C04's model. "),
-    "C06": ("Lean 4 theorems on an executable model of linear_lib.project / categorical project / "
-            "internal_utils partial-order projection + differential correspondence against the real constraints",
-            "Theorems (Props/C06.lean): categorical pairs+bounds+fixpoint; Linear sign clip, monotonic-dominance and range-dominance stages establish every pair and keep signs (non-zero scalings), normalisation keeps all and gives unit 1-norm, feasible=>unchanged; for every weight "
-            "vector and every ACYCLIC pair set: the modelled _topological_sort is proved to return a valid order for "
-            "acyclic graphs with the code's fuel (Lemmas/TopoSort.lean: DFS invariants, topoSort_valid, "
-            "topoSort_some_of_nonempty; *_acyclic corollaries).",
-            "4/C06", "Props/C06Accepted.lean: for configurations accepted by the constructor model the hypotheses `all scalings != 0`, "
-            "`Acyclic`, `dominance dimensions monotone` are theorems (after fixes 44c9e89, 2ef7ec2, 1f0b06a, 66006cc in /repo). "),
+            "Theorems (Props/C01.lean, C01Constraint.lean, C01Accepted.lean): for every rank, size vector, monotonicity set, "
+            "bounds and EVERY input kernel, finalize+clip returns a kernel monotone along every monotone axis, meeting every "
+            "Edgeworth and trapezoid inequality and the bounds, for every configuration in the class H_trap "
+            "(C01_strict_mixed_class, generalised to C01_strict_mixed_class_d over CfgWFd, which tolerates a duplicated "
+            "identical Edgeworth trust; classes A, B, C1 separately), transported to the executable table model "
+            "(finalizeT_agree, C01_exec_*). For the composite the driver runs (latticeConstraintT = Dykstra -> finalize -> "
+            "clip): C01_constraint_strict (strict mode, every iteration count, every other family configured alongside); "
+            "non-strict mode only the bounds (C01_constraint_nonstrict_bounds, counter-instance "
+            "C01_constraint_nonstrict_not_monotone). Feasible => unchanged with NO class restriction: finalize_fix / "
+            "finalizeT_fix, C01_finalize_fixpoint, C01_constraint_fixpoint (both modes, every iteration count, all Dykstra "
+            "families). For configurations accepted by the constructor model: accepted_cfgWFd, accepted_finalize_strict, "
+            "accepted_constraint_strict, accepted_finalize_fixpoint, accepted_constraint_fixpoint; HTrap is shown not to "
+            "follow from acceptance (witness_accepted_not_HTrap). Outside H_trap the establishing clause is false: "
+            "C01_counter_witness = known finding F-C01-a.",
+            "4/C01",
+            "C01_full (all configurations) stays a `def : Prop`: with Edgeworth trusts present a monotone trapezoid "
+            "conditional axis in rank >= 3 is F-C01-a and shared conditional axes are the documented exception; non-strict "
+            "mode guarantees only the bounds after finitely many passes (scope note: the property names the default strict "
+            "mode and finalize_constraints()). "),
+    "C08": ("Lean 4 model of project_by_dykstra (all group projections + schedule) + differential correspondence per family "
+            "and combined + fixpoint / convergence / QP-nearest-point oracle (scipy SLSQP)",
+            "Theorems (Props/C08.lean, C08Shared.lean, C08Accepted.lean): the model keys every Dykstra roll-back slot like "
+            "the Python dict last_change (SlotKey, groupKeys), so constraint tuples listed twice share a slot as in the real "
+            "code (dup_slots_differ). Feasible/fixed kernels are returned unchanged for EVERY iteration count, telescoping "
+            "invariant for ANY group maps, every stencil map is the exact Euclidean projection (lands, fixes, variational "
+            "inequality), every group map of monotonicity, unimodality, Edgeworth, trapezoid, monotonic dominance, joint "
+            "monotonicity and joint unimodality is its stencil map on disjoint stencils (key_lands, key_vi); on the "
+            "executable slot-keyed loop, repeated constraints included: locality, feasible => unchanged "
+            "(projectByDykstraT_feasible), idempotence, telescoping, table loop = function loop. CONVERGENCE is PROVED "
+            "(Lemmas/DykstraConv.lean, abstract Boyle-Dykstra theorem in a finite-dimensional real inner product space): "
+            "dykstra_cfg_converges / projectByDykstraT_cfg_converges (no repeated dict key) and "
+            "projectByDykstraT_cfg_converges_shape (Lemmas/DykstraConvShared.lean: one correction per set, any cyclic "
+            "visiting order with repetitions; repeated constraint tuples allowed): for every configuration without range "
+            "dominance and every kernel the function-level and executable loops converge to the Euclidean-nearest feasible "
+            "kernel, the violation tends to 0. C08Accepted: accepted_converges derives the hypotheses from constructor "
+            "acceptance up to two side conditions. ",
+            "4/C08",
+            "PARTIAL: range dominance is outside the convergence theorem (the property does not claim a nearest-point limit "
+            "for it; its corner map is proved NOT to be a Euclidean projection, rangeDom_corner_not_projection) and is tested"
+            " against scipy SLSQP / violation -> 0 each run; the RATE of convergence and the PWL iterative projection's limit"
+            " are covered by the oracle here and by C04's model. From acceptance the side conditions `no range dominance` and"
+            " `no (d, d) dominance / joint-monotonicity pair` remain (verifyLattice_cfgShape); the latter only because the "
+            "verifier model has not yet followed /repo's repair 18dd711 (F-C08-c). F-C08-a (dict key without direction), "
+            "F-C08-c, F-C08-d ('Valley' projected onto the peak cone) are fixed in /repo. "),
+    "C06": ("Lean 4 theorems on an executable model of linear_lib.project / categorical project / internal_utils "
+            "partial-order projection + differential correspondence against the real constraints",
+            "Theorems (Props/C06.lean, C06Accepted.lean, C06Compose.lean): categorical pairs+bounds+fixpoint; Linear stage "
+            "theorems (sign clip, monotonic- and range-dominance stages establish every pair and keep signs, normalisation "
+            "keeps all); the modelled _topological_sort returns a valid order for every acyclic pair set with the code's fuel"
+            " (topoSort_valid). COMPOSITE (accepted_project, accepted_project_constraints): for every configuration accepted "
+            "by the constructor model and every column of the right length the whole Linear.project (the function the driver "
+            "runs) returns, with every sign, every monotonic- and scaled range-dominance inequality, unit 1-norm resp. "
+            "max-norm unless the pre-normalised column is below the guard 1e-8 (then returned un-normalised, stated "
+            "explicitly), and is a fixpoint (accepted_full_fixpoint); the two dominance blocks commute on accepted "
+            "configurations (accepted_stages_commute). Order 2 is root-free: positive_scaling_keeps / real_scaling_keeps, "
+            "unit 2-norm over the reals (l2_unit_norm), the guard as a rational test (l2Skips_iff), together "
+            "accepted_project_l2.",
+            "4/C06",
+            "For accepted configurations `all scalings != 0`, `Acyclic`, `dominance dimensions monotone`, disjointness of the"
+            " two kinds of dominance are theorems (after fixes 44c9e89, 2ef7ec2, 1f0b06a, 66006cc in /repo). General p-norms "
+            "(any positive real order) have no unit-norm theorem (positive_scaling_keeps only; tied through the float "
+            "p-norm). F-C06-b (normalization_order not validated) and F-C06-c (monotonicities=None raised on every call) were"
+            " found here and are fixed in /repo (4f3f7ef, 0bdd751). "),
 }
 PENDING_REASON = "check not built yet in this round (design in DESIGN.md section 4); will be claimed when its model, theorems and correspondence exist"
 
